@@ -1,5 +1,8 @@
 """C20 R4 — provenance of the quoted text.
 
+ R4.lookup_scope  at the same sites, a further %s argument that names a scope (`Y->symbol.name`): "in <scope>" is the scope the look-up
+                  searched; "for <declaration>" is that declaration or the one whose enclosing scope was searched
+
  R4.lookup_name   at a report site guarded by a failed look-up (`x = LOOKUP(scope, NAME, ..); if(!x) report(CODE, sym, ARG..)`)
                   the first %s argument is the same access path as NAME
  R4.dup_key       in the dictionary insert functions the quoted name is the key that collided and the quoted line /
@@ -8,6 +11,7 @@
                   or the token text itself
 Sites where neither shape applies are listed in the evidence (`r4_unclassified`) and carry no obligation.
 """
+import re
 from engines import known_facts, parse_format
 from ir import walk, strip, expr_str, access_path
 
@@ -169,6 +173,7 @@ def same_symbol(fn, call, ent, var, key, res):
 
 def run(prog, res, tab):
     n_lookup = 0
+    n_scope = [0]
     n_lex = 0
     unclassified = []
     counters = {}
@@ -286,6 +291,41 @@ def run(prog, res, tab):
                     "quotes `%s`, the name %s failed to find" % (expr_str(a0), lc["fn"]) if ok else
                     "%s(.., %s, ..) failed but the message quotes `%s`" % (lc["fn"], expr_str(name_arg), expr_str(a0)),
                     {"lookup": expr_str(lc)[:100]})
+            # the scope the message names ("Unknown attribute %s in entity %s") is the one that was searched
+            if lc["fn"] not in ("fopen", "EXPRESSfind_schema") and lc.get("ch"):
+                sp = access_path(lc["ch"][0])
+                if sp is not None:
+                    if sp.endswith(".symbol_table"):
+                        sp = sp[:-len(".symbol_table")]
+                    convs = parse_format(ent["message"] or "") or []
+                    for c_, a_ in zip(convs, var):
+                        if c_["conv"] != "s" or a_ is a0:
+                            continue
+                        pa_ = access_path(a_)
+                        if pa_ is None or not pa_.endswith(".symbol.name"):
+                            continue
+                        owner = strip(a_)
+                        while owner is not None and owner["k"] == "Member" and owner.get("ch"):
+                            owner = strip(owner["ch"][0])
+                        if owner is None or "Scope_" not in (fn.ty(owner) or ""):
+                            continue
+                        n_scope[0] += 1
+                        named = pa_[:-len(".symbol.name")]
+                        # role of the named scope, from the repository's own message template: "... in entity %s" is the scope that
+                        # was searched; "... for entity %s" is the declaration the reference stands in (the search starts in it or
+                        # in the scope that contains it)
+                        before = (ent["message"] or "").split(c_["text"])[0] if c_.get("text") else ""
+                        pre = (ent["message"] or "")
+                        idx_ = [i_ for i_, cc in enumerate(convs) if cc is c_][0]
+                        parts_ = re.split(r"%[-0-9.]*[a-zA-Z]", pre)
+                        lead = parts_[idx_].rstrip().lower() if idx_ < len(parts_) else ""
+                        exact = re.search(r"\bin( \w+)?$", lead) is not None
+                        oks = named == sp or (not exact and sp == named + ".superscope")
+                        res.add("R4.lookup_scope", key + "|scope", fn.where(call), oks,
+                                "names `%s`, the scope %s searched" % (expr_str(a_), lc["fn"]) if oks else
+                                "%s searched `%s` but the message names `%s`: the diagnostic points the reader at a declaration that is "
+                                "not the one at fault (it may even declare the name)" % (lc["fn"], expr_str(lc["ch"][0])[:50], expr_str(a_)))
+    res.floor("R4.lookup_scope", "diagnostics of a failed look-up that also name a scope", n_scope[0], 3)
     res.floor("R4.lookup_name", "look-up / dictionary guarded report sites", n_lookup, FLOOR_LOOKUP)
     res.floor("R4.lexical", "lexical report arguments", n_lex, FLOOR_LEX)
     res.info["r4_unclassified"] = unclassified
